@@ -37,10 +37,13 @@ def gen(rng):
             pat = []
             for _ in range(rng.choice([1, 1, 2, 3])):
                 s = rng.choice(svcs)
-                pat.append(dict(svc=s["j"], expected=str(rng.choice([1, 2, 3])), phys=rng.random() < 0.7))
+                pat.append(dict(svc=s["j"], expected=str(rng.choice([0, 1, 2])), phys=rng.random() < 0.7))
             pats.append(pat)
         variants.append(pats)
-    return dict(flavour=flavour, services=svcs, variants=variants)
+    # ECU variants may define their own identification services (same names, same request bytes) whose
+    # responses carry the value one byte later
+    layouts = [rng.choice([0, 0, 1]) if flavour == "ecu" else 0 for _ in range(nvar)]
+    return dict(flavour=flavour, services=svcs, variants=variants, layouts=layouts)
 
 
 def emit(case):
@@ -73,7 +76,22 @@ def emit(case):
         for i, pats in enumerate(case["variants"]):
             px = "".join("<ECU-VARIANT-PATTERN><MATCHING-PARAMETERS>" + "".join(mp(p, "MATCHING-PARAMETER") for p in pat) +
                          "</MATCHING-PARAMETERS></ECU-VARIANT-PATTERN>" for pat in pats)
-            evs += (f'<ECU-VARIANT ID="EV{i}"><SHORT-NAME>EV{i}</SHORT-NAME>'
+            local = ""
+            if case.get("layouts", [0] * 99)[i] == 1:
+                lsvc = lreq = lres = ""
+                for s in case["services"]:
+                    j = s["j"]
+                    lsvc += (f'<DIAG-SERVICE ID="EV{i}.svc{j}"><SHORT-NAME>ident{j}</SHORT-NAME><REQUEST-REF ID-REF="EV{i}.rq{j}"/>'
+                             f'<POS-RESPONSE-REFS><POS-RESPONSE-REF ID-REF="EV{i}.pr{j}"/></POS-RESPONSE-REFS></DIAG-SERVICE>')
+                    lreq += (f'<REQUEST ID="EV{i}.rq{j}"><SHORT-NAME>rq{j}</SHORT-NAME><PARAMS>{const("sid", 0x22)}{const("a", 0xF1)}{const("b", j)}</PARAMS></REQUEST>')
+                    rev = '<PARAM xsi:type="VALUE"><SHORT-NAME>rev</SHORT-NAME><DOP-REF ID-REF="BV.dop"/></PARAM>'
+                    if s["shape"] == 0:
+                        val = '<PARAM xsi:type="VALUE"><SHORT-NAME>id</SHORT-NAME><DOP-REF ID-REF="BV.dop"/></PARAM>'
+                    else:
+                        val = '<PARAM xsi:type="VALUE"><SHORT-NAME>data</SHORT-NAME><DOP-REF ID-REF="BV.st"/></PARAM>'
+                    lres += (f'<POS-RESPONSE ID="EV{i}.pr{j}"><SHORT-NAME>pr{j}</SHORT-NAME><PARAMS>{const("sid", 0x62)}{const("a", 0xF1)}{const("b", j)}{rev}{val}</PARAMS></POS-RESPONSE>')
+                local = f"<DIAG-COMMS>{lsvc}</DIAG-COMMS><REQUESTS>{lreq}</REQUESTS><POS-RESPONSES>{lres}</POS-RESPONSES>"
+            evs += (f'<ECU-VARIANT ID="EV{i}"><SHORT-NAME>EV{i}</SHORT-NAME>{local}'
                     + (f"<ECU-VARIANT-PATTERNS>{px}</ECU-VARIANT-PATTERNS>" if px else "") +
                     '<PARENT-REFS><PARENT-REF ID-REF="BV" DOCREF="DLC" DOCTYPE="CONTAINER" xsi:type="BASE-VARIANT-REF"/></PARENT-REFS></ECU-VARIANT>')
         layers = f'<BASE-VARIANTS><BASE-VARIANT ID="BV"><SHORT-NAME>BV</SHORT-NAME>{body}</BASE-VARIANT></BASE-VARIANTS><ECU-VARIANTS>{evs}</ECU-VARIANTS>'
@@ -92,10 +110,11 @@ def emit(case):
             f'<DIAG-LAYER-CONTAINER ID="DLC"><SHORT-NAME>DLC</SHORT-NAME>{layers}</DIAG-LAYER-CONTAINER></ODX>')
 
 
-def ref_match(p, resp):
+def ref_match(p, resp, layout=0):
     """independent reference: does the response satisfy the matching parameter?
     (a CODED-CONST mismatch only warns, so only the length and the value byte count)"""
-    return len(resp) >= 4 and str(resp[3]) == p["expected"]
+    k = 3 + layout
+    return len(resp) > k and str(resp[k]) == p["expected"]
 
 
 def run_impl(case, db, ecu, use_cache):
@@ -132,8 +151,8 @@ def main(argv=None):
             c = gen(rng)
             rqs = [bytes([0x22, 0xF1, s["j"]]) for s in c["services"]]
             # every response function over a small alphabet of answers (exhaustive for <= 2 services)
-            answers = lambda j: [bytes([0x62, 0xF1, j, 1]), bytes([0x62, 0xF1, j, 2]), bytes([0x62, 0xF1, j, 3]),
-                                 bytes([0x7F, 0x22, 0x31]), b"", bytes([0x7F, 0x22, 0x31, 0x02])]
+            answers = lambda j: [bytes([0x62, 0xF1, j, 1, 2]), bytes([0x62, 0xF1, j, 2, 1]), bytes([0x62, 0xF1, j, 0, 0]),
+                                 bytes([0x62, 0xF1, j, 0]), bytes([0x7F, 0x22, 0x31]), b"", bytes([0x7F, 0x22, 0x31, 0x02, 0x00])]
             combos = list(itertools.product(*[answers(s["j"]) for s in c["services"]]))
             if len(combos) > (36 if quick else 216):
                 combos = rng.sample(combos, 36 if quick else 216)
@@ -150,14 +169,14 @@ def main(argv=None):
             pid = 0
             m_t = []
             vs = []
-            for pats in c["variants"]:
+            for vi_, pats in enumerate(c["variants"]):
                 vp = []
                 for pat in pats:
                     pp = []
                     for p in pat:
                         pid += 1
                         for rs, rid in resp_ids.items():
-                            m_t.append([pid, rid, ref_match(p, rs)])
+                            m_t.append([pid, rid, ref_match(p, rs, c.get("layouts", [0] * 99)[vi_])])
                         pp.append([p["svc"], pid])
                     vp.append(pp)
                 vs.append(vp)
@@ -193,7 +212,7 @@ def main(argv=None):
             # the specification
             want = None
             for i, pats in enumerate(c["variants"]):
-                if any(all(ref_match(p, ecu[bytes([0x22, 0xF1, p["svc"]])]) for p in pat) for pat in pats):
+                if any(all(ref_match(p, ecu[bytes([0x22, 0xF1, p["svc"]])], c.get("layouts", [0] * 99)[i]) for p in pat) for pat in pats):
                     want = f"EV{i}"
                     break
             allowed = {bytes([0x22, 0xF1, p["svc"]]) for pats in c["variants"] for pat in pats for p in pat}
